@@ -87,4 +87,16 @@ def applyCancelU (ub : List Beh) (st : St) (k : Int) : St :=
   else if !st.alive then { st with log := [] }
   else doCancelU ub { st with log := [] } k
 
+/-- Histories in which a `cancel k` made from outside any callback may find an unbind handler that acts: the harness's
+    operations, and `cancel k` under the handler table `ub` (`ubeh …` lines seen so far). -/
+inductive UOp
+  | op (o : Op)
+  | cancelU (ub : List Beh) (k : Int)
+
+def applyUOp (st : St) : UOp → St
+  | .op o => applyOp st o
+  | .cancelU ub k => applyCancelU ub st k
+
+def runUOps (cfg : Config) (ops : List UOp) : St := ops.foldl applyUOp (build cfg)
+
 end Tickit.EvLoop
